@@ -8,8 +8,9 @@ module-level call of a program-defined function is checked against the stub.
 
 import ast as pyast
 import re
+import types
 
-from vk import admits as adm, boot, progspace, pt, run as vrun
+from vk import admits as adm, boot, defspace, progspace, pt, run as vrun
 
 ID = "C01"
 LEVEL = "exploration"
@@ -38,6 +39,9 @@ def _attr_term(stub, cls, attr):
       return adm.ANY
     if "__getattr__" in ci.funcs:
       return adm.ANY
+  if any(k is not object and k.__module__ != "__vk_prog__" for k in cls.__mro__):
+    # a library base class (enum.Enum, tuple, ...) may declare it; its stub is not part of the output
+    return adm.ANY
   return None
 
 
@@ -46,6 +50,7 @@ SHARE = False
 
 def check_program(src, seq=None, share=None):
   """Returns (violations [str], info dict)."""
+  has_prelude = src.startswith(progspace.PRELUDE)
   info = {}
   try:
     res = pt.analyze(src, share=SHARE if share is None else share)
@@ -61,6 +66,11 @@ def check_program(src, seq=None, share=None):
   checked = 0
   user_classes = None
   lines = src.split("\n")
+  # names bound by import statements are re-exported as imports, not as declarations
+  imported = set()
+  for node in pyast.walk(pyast.parse(src)):
+    if isinstance(node, (pyast.Import, pyast.ImportFrom)):
+      imported.update((a.asname or a.name).split(".")[0] for a in node.names)
   for answers in progspace.COND_ANSWERS:
     ns, exc, _ = progspace.execute(src, answers)
     if exc is not None:
@@ -68,7 +78,9 @@ def check_program(src, seq=None, share=None):
     completed += 1
     env = adm.Env(ns)
     for name, v in ns.items():
-      if name.startswith("__") or name == "input" or name in progspace.PRELUDE_NAMES:
+      if name.startswith("__") or name == "input" or (has_prelude and name in progspace.PRELUDE_NAMES):
+        continue
+      if name in imported or name in stub.typevars or isinstance(v, types.ModuleType):
         continue
       checked += 1
       term = None
@@ -88,7 +100,13 @@ def check_program(src, seq=None, share=None):
             answers, name, _short(v), _decl(stub, name)))
       # instance attributes of user-class instances
       if type(v).__module__ == "__vk_prog__":
-        for attr, av in vars(v).items():
+        try:
+          inst_attrs = dict(vars(v))
+        except TypeError:   # __slots__ instance
+          inst_attrs = {a: getattr(v, a) for a in getattr(type(v), "__slots__", ()) if hasattr(v, a)}
+        if isinstance(v, type):
+          inst_attrs = {}
+        for attr, av in inst_attrs.items():
           at = _attr_term(stub, type(v), attr)
           if at is None:
             bad.append("answers=%s: %s.%s = %s at run time, but class %s declares no such attribute" % (
@@ -98,10 +116,16 @@ def check_program(src, seq=None, share=None):
                 answers, name, attr, _short(av), type(v).__name__))
     # results of module-level calls of program-defined functions: only when the
     # call statement is the last line of the program that assigns its target
-    body = lines[len(progspace.PRELUDE.split("\n")) - 1:]
+    body = lines[len(progspace.PRELUDE.split("\n")) - 1:] if has_prelude else lines
     for k, ln in enumerate(body):
       m2 = _CALL_RE.match(ln)
       if not m2:
+        continue
+      try:   # the statement must be exactly `name = name(args)` (not e.g. `u = outer()(1)`)
+        st = pyast.parse(ln).body[0]
+      except SyntaxError:
+        continue
+      if not (isinstance(st, pyast.Assign) and isinstance(st.value, pyast.Call) and isinstance(st.value.func, pyast.Name)):
         continue
       tgt, fn = m2.group(1), m2.group(2)
       later = "\n".join(body[k + 1:])
@@ -114,7 +138,7 @@ def check_program(src, seq=None, share=None):
               answers, fn, _short(ns[tgt]), fn))
   info["completed"] = completed
   info["checked"] = checked
-  txt = "\n".join(pyast.unparse(a) for n, a in stub.consts.items() if n in ("x", "y"))
+  txt = "\n".join(pyast.unparse(a) for n, a in stub.consts.items() if n in ("x", "y") or not has_prelude)
   info["nontrivial"] = bool(re.search(r"Union|Optional|\[|\|", txt))
   info["outcome"] = "ran%d%s" % (completed, "+union/container" if info["nontrivial"] else "+scalar")
   # de-duplicate messages that differ only in the answers
@@ -163,6 +187,8 @@ def work(item):
     if not bad2:
       info["outcome"] = "differs-with-shared-loader"
       return [], info, None
+  if bad and seq is None:   # PS-def program: already small, reported as is
+    return bad[:3], info, None
   if bad:
     mseq = minimize(seq)
     msrc = progspace.program(mseq)
@@ -175,22 +201,27 @@ def run(rep, tier, seed):
   global SHARE
   SHARE = tier != "thorough"   # quick: one loader per worker process; violations re-checked with a fresh one
   progs = progspace.programs(tier)
-  n_stmt = len(progspace.statements(tier == "quick"))
+  progs += [(i, src, None) for i, src in defspace.programs(tier)]
   for (i, src, seq), (bad, info, mseq) in vrun.pmap(work, progs, seed=seed, maxtasks=400, progress=2000):
     rep.evaluations += 1
     rep.outcome(info["outcome"])
     if info.get("nontrivial"):
       rep.nontrivial.add(i)
-    if bad:
+    if bad and seq is None:
+      rep.violation(progspace.pid(src), "program %s: %s" % (i, bad[0]), {"src": src, "all": bad, "id": i})
+    elif bad:
       msrc = progspace.program(mseq)
       rep.violation(progspace.pid(msrc), "program %s: %s" % (list(mseq), bad[0]),
                     {"src": msrc, "seq": list(mseq), "all": bad, "found_in": list(seq)})
-  rep.sample({"program_tail": list(progs[len(progs) // 2][2])})
-  rep.sample({"program_tail": list(progs[-1][2]), "prelude": "vk/progspace.py PRELUDE"})
-  rep.cov.update({"programs": len(progs), "cpython_runs": 4 * len(progs),
+  core = [p for p in progs if p[2] is not None]
+  rep.sample({"program_tail": list(core[len(core) // 2][2])})
+  rep.sample({"program_tail": list(core[-1][2]), "prelude": "vk/progspace.py PRELUDE"})
+  rep.sample({"ps_def_program": progs[-1][1][-300:], "id": progs[-1][0]})
+  rep.cov.update({"programs": len(progs), "ps_core_programs": len(core), "ps_def_programs": len(progs) - len(core), "cpython_runs": 4 * len(progs),
                   "bounds": "tier=%s: all single statements over %d W + %d R templates and names x,y; all 2-statement "
                             "sequences (%s)" % (tier, len(progspace.W), len(progspace.R),
-                                                "core templates" if tier == "quick" else "all templates")})
+                                                "core templates" if tier == "quick" else "all templates") +
+                            "; PS-def (vk/defspace.py): every producer alone, every (consumer, producer, value) flow, ordered producer pairs"})
   rep.rule = ("program = fixed prelude + every statement sequence of the tier's bound; each analysed once by "
               "pytype.io.generate_pyi (fresh loader) and executed 4x under CPython (all answers of the two opaque "
               "conditions); non-trivial = stub type of x or y is a union/optional/container")
